@@ -112,7 +112,11 @@ func run(c *vf.Case) {
 
 type fbEntry struct {
 	recv bool
-	sym  uint8
+	// TWCC status symbol 3, "packet received, w/o timestamp" (pion/rtcp parses it and allots it
+	// no receive delta; the later draft reserves it): nothing is demanded about the packet
+	// itself, but every OTHER status of the feedback keeps its own delta
+	noTime bool
+	sym    uint8
 	// TWCC: arrival in microseconds on the feedback's own clock (reference time*64 ms + the
 	// sum of the deltas up to and including this status).
 	// RFC 8888: arrival in 1/65536 s units modulo 2^32 (report timestamp - offset).
@@ -136,6 +140,7 @@ type fbDec struct {
 	lastKind  byte
 	runBeyond bool // the final run-length chunk's run exceeds the statuses left
 	paddedVec bool // the final vector chunk has more symbol slots than statuses left
+	hasSym3   bool
 	ref       uint32
 	fbCount   uint8
 	// RFC 8888 only
@@ -150,6 +155,8 @@ func (d *fbDec) class() string {
 		return "run-length-beyond-status-count"
 	case d.paddedVec:
 		return "padded-final-vector-chunk"
+	case d.hasSym3:
+		return "received-without-timestamp-symbol"
 	}
 	return "plain"
 }
@@ -239,7 +246,8 @@ func decodeTWCC(b []byte) (*fbDec, string) {
 			off += 2
 			e.recv, e.at = true, at
 		case 3:
-			return nil, "reserved symbol"
+			e.noTime = true
+			d.hasSym3 = true
 		}
 		rg.ent[i] = e
 	}
@@ -935,6 +943,8 @@ func (w *world) checkAdapterTWCC(d *fbDec, acks []cc.Acknowledgment, err error, 
 		}
 		w.c.Add("adapter_acks_compared", 1)
 		switch {
+		case e.noTime:
+			w.c.Add("adapter_acks_for_received_without_timestamp", 1)
 		case !e.recv && !a.Arrival.IsZero():
 			w.viol(comp+"/arrival-status-differs/not-received-reported-as-arrived", "number %d is encoded as not received, acknowledgement %+v has an arrival time\n%s\nfeedback: %s",
 				a.SequenceNumber, *a, w.window(d, rg, off), d.summary())
@@ -1144,6 +1154,8 @@ func (w *world) checkReport(rep rtpfb.Report) {
 		}
 		rg, off := w.locate(d, s)
 		switch {
+		case e.noTime:
+			w.c.Add("rtpfb_reports_for_received_without_timestamp", 1)
 		case e.recv && !pr.Arrived:
 			cls := "other"
 			if s.fb.prevReported {
@@ -1476,7 +1488,14 @@ func (w *world) handTWCC() []byte {
 	base, n := w.rangeAround(w.twccSends, func(s *sendRec) uint16 { return s.twccSeq })
 	syms := make([]uint8, n)
 	cur := uint8(0)
+	pSym3 := 0.0
+	if r.Chance(0.25) {
+		pSym3 = 0.05
+	}
 	draw := func() uint8 {
+		if pSym3 > 0 && r.Chance(pSym3) {
+			return 3
+		}
 		if !r.Chance(w.pRecv) {
 			return 0
 		}
